@@ -231,3 +231,67 @@ def tamper_text(xml, needle, replacement):
     """Change signed content (digest mismatch)."""
     assert needle in xml
     return xml.replace(needle, replacement, 1)
+
+
+# ---- requests -----------------------------------------------------------------------
+
+REQ_NS = ('xmlns:samlp="urn:oasis:names:tc:SAML:2.0:protocol" xmlns:saml="urn:oasis:names:tc:SAML:2.0:assertion"')
+ELEM = {
+    "AuthnRequest": "urn:oasis:names:tc:SAML:2.0:protocol:AuthnRequest",
+    "LogoutRequest": "urn:oasis:names:tc:SAML:2.0:protocol:LogoutRequest",
+    "AttributeQuery": "urn:oasis:names:tc:SAML:2.0:protocol:AttributeQuery",
+    "ManageNameIDRequest": "urn:oasis:names:tc:SAML:2.0:protocol:ManageNameIDRequest",
+    "AuthnQuery": "urn:oasis:names:tc:SAML:2.0:protocol:AuthnQuery",
+}
+
+
+def request(kind, q):
+    """kind: AuthnRequest | LogoutRequest | AttributeQuery | ManageNameIDRequest | AuthnQuery
+    q: dict(id, version, issue_instant, destination, issuer, sig_template, acs_url, protocol_binding, name_id)"""
+    issuer = "" if q.get("issuer") is None else "<saml:Issuer>%s</saml:Issuer>" % escape(q["issuer"])
+    common = "%s%s%s%s" % (attr("ID", q.get("id")), attr("Version", q.get("version", "2.0")),
+                           attr("IssueInstant", q.get("issue_instant")), attr("Destination", q.get("destination")))
+    sig = q.get("sig_template", "")
+    nid = name_id(q.get("name_id", "subject-1"))
+    if kind == "AuthnRequest":
+        extra = attr("AssertionConsumerServiceURL", q.get("acs_url")) + attr("ProtocolBinding", q.get("protocol_binding"))
+        body = '<samlp:NameIDPolicy AllowCreate="true" Format="%s"/>' % NAMEID_TRANSIENT
+    elif kind == "LogoutRequest":
+        extra = ""
+        body = nid + "<samlp:SessionIndex>s-1</samlp:SessionIndex>"
+    elif kind == "AttributeQuery":
+        extra = ""
+        body = "<saml:Subject>%s</saml:Subject>" % nid
+    elif kind == "ManageNameIDRequest":
+        extra = ""
+        body = nid + "<samlp:NewID>new-id-1</samlp:NewID>"
+    elif kind == "AuthnQuery":
+        extra = ""
+        body = "<saml:Subject>%s</saml:Subject>" % nid
+    else:
+        raise ValueError(kind)
+    return "<samlp:%s %s%s%s>%s%s%s</samlp:%s>" % (kind, REQ_NS, common, extra, issuer, sig, body, kind)
+
+
+def detached_signature(keyname, saml_request_b64, relay_state, sigalg, typ="SAMLRequest"):
+    """Redirect-binding signature made independently of pysaml2 (RSA PKCS#1 v1.5)."""
+    from urllib.parse import urlencode
+
+    from cryptography.hazmat.primitives import hashes, serialization
+    from cryptography.hazmat.primitives.asymmetric import padding
+
+    algs = {
+        "http://www.w3.org/2000/09/xmldsig#rsa-sha1": hashes.SHA1,
+        "http://www.w3.org/2001/04/xmldsig-more#rsa-sha224": hashes.SHA224,
+        "http://www.w3.org/2001/04/xmldsig-more#rsa-sha256": hashes.SHA256,
+        "http://www.w3.org/2001/04/xmldsig-more#rsa-sha384": hashes.SHA384,
+        "http://www.w3.org/2001/04/xmldsig-more#rsa-sha512": hashes.SHA512,
+    }
+    parts = [urlencode({typ: saml_request_b64})]
+    if relay_state is not None:
+        parts.append(urlencode({"RelayState": relay_state}))
+    parts.append(urlencode({"SigAlg": sigalg}))
+    octets = "&".join(parts).encode("ascii")
+    with open(fixtures.key_path(keyname), "rb") as f:
+        key = serialization.load_pem_private_key(f.read(), password=None)
+    return base64.b64encode(key.sign(octets, padding.PKCS1v15(), algs[sigalg]())).decode("ascii")
